@@ -15,7 +15,7 @@ the stream after it: `serveOne` therefore takes the request stream and the optio
 and says whether it consumed the latter (`One.resp _ consumedNext`).
 
 Not modelled (documented in notes/built/C02.md): shared-memory segments (`shmConn.ensure` is
-taken to return nil, i.e. no request advertises a segment), external-location resolution
+taken to return nil, i.e. no request advertises a segment, so every pointer batch is refused), external-location resolution
 (`externalConfig = nil`), dispatch hooks, write errors on the transport, context cancellation,
 the wrapped `request` column of `deserializeParams`, header serialization failure.
 -/
@@ -109,6 +109,12 @@ def lookup (cfg : Cfg) (m : Bytes) : Option MethodInfo := cfg.methods.find? (·.
 
 def isStreamKind (k : MKind) : Bool := k != .unary
 
+/-- the method is registered as a stream method (`drainRefusedStream`'s test) -/
+def isStreamMethod (cfg : Cfg) (m : Bytes) : Bool :=
+  match lookup cfg m with
+  | some info => isStreamKind info.kind
+  | none => false
+
 def errStream (ty : String) (id : Bytes) : RespStream := ⟨false, [.exc ty id]⟩
 
 def logsOf (n : Nat) (id : Bytes) : List OutBatch := List.replicate n (.log id)
@@ -157,6 +163,7 @@ def lockstep (cfg : Cfg) (mode : Mode) (inputSchema : Option Schema)
   | _, [] => []                                      -- client closed its stream
   | seen, b :: rest =>
     if (b.md.get kCancel).isSome then []           -- cancel batch: end without calling the state
+    else if isShmPointer b then [.exc "IOError" id]  -- no segment is engaged: the pointer is refused
     else
       let castFails := match inputSchema with
         | some t => !castOk cfg b inSch t
@@ -244,8 +251,9 @@ def serveOne (cfg : Cfg) (s : Stream) (next : Option Stream) : One :=
   | .error (.rpc ty) => .resp [errStream ty.name []] false
   | .ok req =>
     let id := req.requestId
-    -- no segment is ever attached in this model: an shm pointer request is refused
-    if isShmPointer req.batch then .resp [errStream "IOError" id] false
+    -- no segment is ever attached in this model: an shm pointer request is refused, and
+    -- `drainRefusedStream` consumes the input stream when the method is a registered stream method
+    if isShmPointer req.batch then .resp [errStream "IOError" id] (isStreamMethod cfg req.method)
     else if req.method = mDescribe then .resp [⟨false, [.describe]⟩] false
     else if req.method = mTransportOptions then .resp [⟨false, [.topts]⟩] false
     else match lookup cfg req.method with
@@ -284,10 +292,8 @@ business and must keep the session in frame.) -/
 def isStreamCall (cfg : Cfg) (op : ClientOp) : Bool :=
   match readRequestStream op.request with
   | .ok req =>
-    !isShmPointer req.batch && req.method != mDescribe && req.method != mTransportOptions &&
-      (match lookup cfg req.method with
-       | some info => isStreamKind info.kind
-       | none => false)
+    if isShmPointer req.batch then isStreamMethod cfg req.method
+    else req.method != mDescribe && req.method != mTransportOptions && isStreamMethod cfg req.method
   | .error _ => false
 
 /-- A well-shaped call: the request stream holds a batch (anything else is not a request: the
